@@ -105,6 +105,11 @@ fn create_canon_stream_producer<'closure, 'name: 'closure>(
 
         let values = stream_map.iter().cloned().collect::<Vec<_>>();
         #[cfg(aquavm_verif)]
+        crate::verif_hooks::emit(crate::verif_hooks::Event::StreamUse {
+            name: stream_map_name.to_string(),
+            air_pos: position.into(),
+        });
+        #[cfg(aquavm_verif)]
         crate::verif_hooks::emit(crate::verif_hooks::Event::CanonSnapshot {
             name: stream_map_name.to_string(),
             values: values.iter().map(|value| value.get_result().to_string()).collect(),
